@@ -521,11 +521,11 @@ ParseTokens(T) ==
        IF ~im.ok THEN im
        ELSE LET ds == PTopDefs(T, im.i, <<>>) IN
             IF ~ds.ok THEN ds
-            ELSE IF ds.i = Len(T) + 1 THEN
+            ELSE IF TK(T, ds.i).t = "eof" THEN
               OK([QueryBase EXCEPT !.Meta = h.n, !.Imports = im.n, !.FuncDefs = ds.n], ds.i)
             ELSE LET q == PQuery(T, ds.i) IN
                  IF ~q.ok THEN q
-                 ELSE IF q.i # Len(T) + 1 THEN Err(q.i)
+                 ELSE IF TK(T, q.i).t # "eof" THEN Err(q.i)
                  ELSE OK([q.n EXCEPT !.Meta = h.n, !.Imports = im.n, !.FuncDefs = ds.n \o @], q.i)
 
 Parse(src) == ParseTokens(Lex(src))
